@@ -52,6 +52,8 @@ FIELDS = {
     "plainsub": ["root: PNode", "t: int = 0"],
     # a specialised generic mixin class nested in C (units keyed by a hash of the type arguments)
     "generic": ["g: GBox[datetime.date]", "h: Optional[GBox[bytes]] = None"],
+    # a generic class whose field is another generic class specialised with the SAME TypeVar twice, once nested
+    "generic2": ["p: GPage[datetime.date]"],
 }
 
 
@@ -114,6 +116,14 @@ def class_source(p: FPoint):
         src += ["_GT = TypeVar('_GT')", "@dataclass", f"class GBox(Generic[_GT], {mixname}):", "    v: _GT"]
         if cfg:
             src += ["    class Config(BaseConfig):"] + ["        " + c for c in cfg]
+    if p.fields == "generic2":
+        src += ["_GA = TypeVar('_GA')", "_GB = TypeVar('_GB')", "_GT = TypeVar('_GT')",
+                "@dataclass", f"class GPair(Generic[_GA, _GB], {mixname}):", "    first: _GA", "    second: _GB"]
+        if cfg:
+            src += ["    class Config(BaseConfig):"] + ["        " + c for c in cfg]
+        src += ["@dataclass", f"class GPage(Generic[_GT], {mixname}):", "    cursor: GPair[_GT, List[_GT]]", "    last: Optional[_GT] = None"]
+        if cfg:
+            src += ["    class Config(BaseConfig):"] + ["        " + c for c in cfg]
     if p.fields == "selfsub":
         src += ["@dataclass", f"class Node({mixname}):", "    a: bytes = b''", "    s: Optional[Self] = None"]
         if cfg:
@@ -151,6 +161,8 @@ def sample_instance(mod, p: FPoint):
         kw = dict(d=mod.DSub("sub", b"z", datetime.date(2020, 1, 2)), dl=[mod.DSub("sub", b"y", None)])
     if p.fields == "plainsub":
         kw = dict(root=mod.PNode(b"ab", mod.PLeaf(b"cd", None, 5)), t=1)
+    if p.fields == "generic2":
+        kw = dict(p=mod.GPage(mod.GPair(datetime.date(2020, 1, 2), [datetime.date(2020, 3, 4)]), datetime.date(2020, 5, 6)))
     if p.fields == "generic":
         kw = dict(g=mod.GBox(datetime.date(2020, 1, 2)), h=mod.GBox(b"xy"))
     if p.fields == "selfsub":
@@ -574,7 +586,7 @@ def g7_task(payload):
             obs.append(dict(id=f"{pid}.H7{label}/dialect_first", status="proved" if not hist else "refuted", unit="history: dialect call before any default call, fresh family (bounded)", bounded=True,
                             detail="; ".join(hist)[:700], witness=({"confirmed": True, "source": src, "input": "first call of each entry point with dialect=CallD on freshly defined classes", "why": hist[0]} if hist else None)))
         recs = [r for r in rec.records if r.seq >= recs0[0].seq] if recs0 else []
-        mine = [r for r in recs if r.builder is not None and r.builder.cls in (cls, getattr(mod, "Later", None), getattr(mod, "GBox", None), getattr(mod, "PN", None), getattr(mod, "PNode", None), getattr(mod, "PLeaf", None), getattr(mod, "DBase", None), getattr(mod, "DSub", None))]
+        mine = [r for r in recs if r.builder is not None and r.builder.cls in (cls, getattr(mod, "Later", None), getattr(mod, "GBox", None), getattr(mod, "PN", None), getattr(mod, "PNode", None), getattr(mod, "PLeaf", None), getattr(mod, "DBase", None), getattr(mod, "DSub", None), getattr(mod, "GPair", None), getattr(mod, "GPage", None))]
         # ---- params
         decl = {}
         probs = []
@@ -674,9 +686,10 @@ def g7_task(payload):
         # ---- semantic: final units against the reference of their effective dialect
         final = {}
         gbox = getattr(mod, "GBox", None)
+        gens = [k for k in (gbox, getattr(mod, "GPair", None), getattr(mod, "GPage", None)) if k is not None]
         for r in mine:
             b = r.builder
-            if b.cls is not cls and not (gbox is not None and b.cls is gbox and b.initial_type_args and b.dialect is None):
+            if b.cls is not cls and not (b.cls in gens and b.initial_type_args and b.dialect is None):
                 continue
             m = ast.parse(r.text)
             for n in m.body:
@@ -689,7 +702,8 @@ def g7_task(payload):
             oid = f"{pid}.G7{label}/{name}{'@' + dialect.__name__ if dialect is not None else ''}"
             b = r.builder
             ucls = b.cls  # the class this unit (de)serializes: C, or the generic class specialised by the unit's type arguments
-            ref.PARAM_OVERRIDE.pop(gbox, None)
+            for k_ in gens:
+                ref.PARAM_OVERRIDE.pop(k_, None)
             if ucls is not cls:
                 ref.PARAM_OVERRIDE[ucls] = dict(zip(getattr(ucls, "__parameters__", ()), b.initial_type_args))
             text_default = _default_branch_text(fn)
@@ -726,7 +740,8 @@ def g7_task(payload):
                     obs.append(ob)
             except (pysym.NotInSubset, ref.Unsupported) as e:
                 obs.append(dict(id=oid, status="undecided", detail=f"outside the verified subset: {e}", unit=r.text[:600]))
-        ref.PARAM_OVERRIDE.pop(gbox, None)
+        for k_ in gens:
+            ref.PARAM_OVERRIDE.pop(k_, None)
         return {"obligations": obs}
     finally:
         build.drop_module(mod)
@@ -848,6 +863,8 @@ def lattice(tier):
                         pts.append(FPoint(mixin, mode, ds, "selfsub", False, "none"))
                     pts.append(FPoint(mixin, mode, ds, "generic", False, "strategy" if ds else "none"))
                     pts.append(FPoint(mixin, mode, ds, "discriminated", False, "strategy" if ds else "none"))
+                    if not ds:
+                        pts.append(FPoint(mixin, mode, ds, "generic2", False, "none"))
                     if mixin in ("dict", "msgpack"):
                         pts.append(FPoint(mixin, mode, ds, "plainnested", False, "strategy" if ds else "none"))
                         pts.append(FPoint(mixin, mode, ds, "plainsub", False, "strategy" if ds else "none"))
